@@ -140,6 +140,10 @@ func init() {
 		ip.alloc.active = false
 		return nil
 	})
+	regRT("AllocTotal", func(ip *Interp, fr *frame, args []Value) Value {
+		// bytes requested by variable-size allocation requests since AllocBegin (engine model)
+		return ip.alloc.total
+	})
 	regRT("Epoch", func(ip *Interp, fr *frame, args []Value) Value {
 		var roots []Value
 		if len(args) > 0 {
@@ -209,6 +213,11 @@ func init() {
 		}
 		return rest
 	})
+	regRT("Concurrently", func(ip *Interp, fr *frame, args []Value) Value {
+		ip.call(fr, 0, args[1], nil)
+		return nil
+	})
+	regRT("Iterations", func(ip *Interp, fr *frame, args []Value) Value { return Const(64, 1) })
 	regRT("HasPrefixC", func(ip *Interp, fr *frame, args []Value) Value {
 		// prefix test that tolerates lazy/opaque tails: compares only leading bytes
 		p := argName(ip, args[1])
